@@ -1,5 +1,6 @@
 LEVEL = "other"
 EXPLANATION = ('PROVED for all values of the weights (xlift symbolic: every entry a distinct real symbol), result shapes enumerated (<=3 inputs, <=4 outputs out of 9 two-mode states, every 5th combination quick / all thorough): pair indexing = nested indexing = array entry in the order of the input / output lists; threshold and parity mappings, plain and inverted, replace every output by its image, add the weights of coinciding outputs (array columns consistent with the outputs list), keep each row total, are idempotent / parity-stable on repetition and are refused for amplitude results; SamplingResult returns its counts unchanged and maps likewise (also images of zero weight); invalid construction / lookups raise the documented errors. ASSUMED: two iterations over an unmodified set agree (CPython). The shapes are bounded, the values are not. BOUNDED (native numpy values, what the exact runs cannot see): complex and negative values keep the total of each input under both mappings; the lists passed to the constructor are not shared with the caller. ADDED LATER: exact-zero columns / entries (images of weight zero stay listed).')
+EXPLANATION = EXPLANATION + ' ADDED IN ROUNDS 5-8. BOUNDED (native): reporting methods (dataframe with thresholds, printing, mappings) are read-only for SimulationResult and SamplingResult.'
 ASSUMPTIONS = ["A7: two iterations over an unmodified set give the same order (CPython)", "shapes (which states appear) enumerated: <=3 inputs, <=4 outputs from 9 two-mode states"]
 TRUSTED = ["xlift field + numpy proxy"]
 NSHARDS = 8
